@@ -518,7 +518,7 @@ def grid (l : Line) (sigma : Rat) (nu : Option Rat) : IO Unit := do
   IO.println s!"obs {id} F={showList Fm}"
   let fin := FB.all F64.isFinite
   if !fin then
-    IO.println s!"spec {id} range=bad(nonfinite) mono=ok sym=ok quad=ok inv=ok tail=ok"
+    IO.println s!"spec {id} range=bad(nonfinite) mono=ok sym=ok quad=ok inv=ok tail=ok ipdf=ok iquad=ok"
   else
   let F := FB.map toRat
   let rng := match (xsB.zip F).find? (fun (_, f) => f < 0 ∨ f > 1) with
@@ -578,7 +578,16 @@ def grid (l : Line) (sigma : Rat) (nu : Option Rat) : IO Unit := do
   let tail := match ((xsB.zip F).zip TB).find? (fun ((_, f), t) =>
       F64.isFinite t && toRat t ≥ pow2 (-1022) && rabs (f - toRat t) > mkRat 1 (10 ^ 10) * toRat t) with
     | some ((x, f), t) => s!"bad(x={showB x},F~{showRat f},ref={showB t})" | none => "ok"
-  IO.println s!"spec {id} range={rng} mono={mono (xsB.zip F)} sym={sym} quad={quad} inv={inv} tail={tail}"
+  -- INDEPENDENT reference: density and its cumulative quadrature written by the harness without the
+  -- package (a PDF/CDF pair that is self-consistent but wrong passes `quad`)
+  let PiB := bitsList (l.getD "Pi"); let QiB := bitsList (l.getD "Qi")
+  let ipdf := match ((xsB.zip PB).zip PiB).find? (fun ((_, p), r) =>
+      F64.isFinite r && !(F64.isFinite p && rabs (toRat p - toRat r) ≤ mkRat 1 (10 ^ 9) * toRat r + pow2 (-1000))) with
+    | some ((x, p), r) => s!"bad(x={showB x},PDF={showB p},ref={showB r})" | none => "ok"
+  let iquad := match ((xsB.zip F).zip QiB).find? (fun ((_, f), q) =>
+      F64.isFinite q && rabs (f - toRat q) > tolQuad) with
+    | some ((x, f), q) => s!"bad(x={showB x},F~{showRat f},ref={showB q})" | none => "ok"
+  IO.println s!"spec {id} range={rng} mono={mono (xsB.zip F)} sym={sym} quad={quad} inv={inv} tail={tail} ipdf={ipdf} iquad={iquad}"
 
 /-! ### generic InvCDF on arithmetic-only distributions -/
 
